@@ -79,7 +79,7 @@ def dumpRoots (rs : Roots) : String :=
   String.join (rs.map fun (m, n) => match n with
     | .mk _ r cs => dumpNode (.mk (m.map Tok.lit) r cs) ++ ";")
 
-def step (st : St) (op : String) : St :=
+def stepBase (st : St) (op : String) : St :=
   match op.splitOn "," with
   | ["H", m, pat, flags, hid] =>
     (match mkRoute (fromHex! pat) flags.toNat! hid.toNat! with
@@ -142,6 +142,19 @@ def step (st : St) (op : String) : St :=
     st.emit (join items "+") (join (sortStrings sitems) "+")
   | ["X"] => st.emit (dumpRoots st.tree.roots ++ " size=" ++ toString st.tree.size ++ " mp=" ++ toString st.tree.maxParams ++ " depth=" ++ toString st.tree.depth) "-"
   | _ => st.emit "bad-op" "bad-op"
+
+/-- `G,<o|e>,<op>&<op>…` (inner fields separated by `:`): the inner writes run in one write transaction that is
+    committed (`o`) or aborted (`e`); an aborted transaction leaves the registered set as it was. -/
+def step (st : St) (op : String) : St :=
+  match op.splitOn "," with
+  | ["G", mode, inner] =>
+    let ops := (splitNonEmpty inner "&").map fun s => s.replace ":" ","
+    let st1 := ops.foldl stepBase { st with mOut := [], sOut := [] }
+    let m := join st1.mOut.reverse "&"
+    let s := join st1.sOut.reverse "&"
+    if mode == "o" then ({ st1 with mOut := st.mOut, sOut := st.sOut }.emit m s).tag "grp-commit"
+    else ({ st with tags := st1.tags }.emit m s).tag "grp-abort"
+  | _ => stepBase st op
 
 /-- one step, then the representation invariant is evaluated on the model tree (tag `wf-violated` if it fails) -/
 def stepChecked (st : St) (op : String) : St :=
